@@ -133,6 +133,9 @@ def sign_req(key_name, pub_key, signer) -> tuple[FormalName, VarBinaryStr]:
 
 
 def derive_cert(key_name, issuer_id, pub_key, signer, start_time, expire_sec) -> tuple[FormalName, VarBinaryStr]:
+    if start_time.tzinfo is not None:
+        # the lifetime is elapsed time: do the arithmetic in UTC, not on the wall clock of a zone with DST
+        start_time = start_time.astimezone(UTC)
     end_time = start_time + timedelta(seconds=expire_sec)
     if isinstance(issuer_id, str):
         issuer_id = Component.from_str(issuer_id)
